@@ -309,5 +309,9 @@ def run(ctx):
     s_refresh(F, res)
     res.rule("S-WASHOUT", "the resolve loop leaves towards Ok(..) only on a confirmed fixed point (the listed C05 give-up exit apart)")
     s_washout(F, res)
+    # ... and the fix point it converges to is the same from every start only if the evaluation itself has no memory: the fee
+    # compile() reports is the fee function of the payload it returns (clause shared with C05)
+    from . import c05
+    c05.reported_fee_clause(F, res, rule="S-WASHOUT", why="the fee compile() reports is not just the fee function of the returned payload (it is clamped against / mixed with something else, e.g. the fee the body already pays): a round that started from an earlier transaction's body can then pin the loop to a different fix point than a fresh instance reaches")
     s_nostate(F, res)
     return res
